@@ -7,8 +7,13 @@ TRUSTED = [
     "Coq 8.16.1 kernel (coqc), vm_compute for case evaluation; no native_compute",
     "hand-written interleaving model props/C18/coq/Model.v of cache/cache.go + cache/cleaner.go: one label = one "
     "locked region (getOrCreate, save, recover, Cleanup incl. maxPayloadSize and the map rebuild, Release, rotate, markStale, CleanEmptyGenerations, "
-    "ReleaseBuckets) or one atomic Add (tied to /repo by the correspondence run, not verified code)",
-    "Go harness harness/cmd/hC18 (goroutines parked inside their loader callbacks, at verifhook.At in save, and a "
+    "ReleaseBuckets) or one atomic Add (tied to /repo by the correspondence run, not verified code); the waiter's path of "
+    "getOrCreate is three labels: locked lookup that finds a loading entry (pc PStart false -> PWait e), wg.Wait() returning "
+    "(PWait e -> hit | PStart true), re-lock that re-examines payload[key] (PStart true -> hit | wait again | create), i.e. the "
+    "`for ok` loop; the `if ok` form without the re-examination is the variant v_retry_recheck = false",
+    "Go harness harness/cmd/hC18 (goroutines parked inside their loader callbacks, at verifhook.At in save, inside "
+    "Metrics.ReattemptsTotal.Inc() -- a prometheus counter with a callback, reached through reportReattempt between a waiter's "
+    "wake-up after a failed load and its re-lock; the parked goroutine is identified by its goroutine id from runtime.Stack -- and a "
     "NewCache run from the Released() / SetGeneration() callbacks of a wrapper bucket; stable points detected through "
     "the WaitsTotal metric and, for a goroutine parked on the cleaner mutex, through runtime.Stack; export file cache/export_verif_c18.go)",
     "wg.Done() merged into the locked region before it; Cleaner.Cleanup's getSize+markStale taken as one step; "
@@ -17,11 +22,13 @@ TRUSTED = [
 ASSUME = [
     "a cache is released only when none of its entries is still loading (no creator inside its loader), and no "
     "lookup starts on a released cache (callers hold the fraction's use lock) -- the only domain hypothesis of "
-    "C18_accounting / C18_accounting_total / C18_cleanup_live_bound (race_free); witnessed on the real code (class "
+    "C18_accounting / C18_accounting_total / C18_cleanup_live_bound / C18_single_flight (race_free); witnessed on the real code (class "
     "witness-R3) and by Example C18_release_during_load_outside_domain",
     "loader sizes and entrySize are >= 0 (label_ok; uint64 in the Go code)",
     "interleavings finer than the schedule points the harness controls (loader callbacks, the Released() scan of "
-    "ReleaseBuckets, verifhook.At(\"cache.save.after-unlock\")) are covered by the theorems over the model only",
+    "ReleaseBuckets, verifhook.At(\"cache.save.after-unlock\"), reportReattempt = between a waiter's wake-up after a failed "
+    "load and its re-lock) are covered by the theorems over the model only; in particular the gap between a waiter's unlock and "
+    "its wg.Wait() (reportWait) and the unlocked read `e.wg == nil` after the wait are not separate schedule points of the harness",
 ]
 RULE = ("event lists on the real cache package, model evaluated in Coq on the same list: exhaustive release subsets "
         "(every subset of 1..5 (thorough 6) caches, every release order for <= 3, and each subset again with a NewCache "
@@ -32,8 +39,14 @@ RULE = ("event lists on the real cache package, model evaluated in Coq on the sa
         "their loaders or at the schedule point after save's unlock while other goroutines look up / wait / clean / "
         "rotate / release / drop generations, boundary schedules (sizes and limits multiples of 100), payload-rebuild "
         "schedules (200..260 entries, rotation, loaders parked in the fresh generation, a cleaning pass that shrinks "
-        "the map around the recreatePayload threshold, second callers of the parked keys), and the "
-        "regression schedules of the four repaired races. non-trivial = at least one lookup and one maintenance call with an "
+        "the map around the recreatePayload threshold, second callers of the parked keys), retry-window schedules (>= 3 "
+        "callers of one key: a creator whose loader returns an error or panics, 1..3 waiters parked between their wake-up and "
+        "their re-lock, later callers of the key arriving in that window with loaders that succeed / fail at once or later, "
+        "waiters re-locking one by one -- hit, wait again, or create -- with rotations / cleaning passes in between), and the "
+        "regression schedules of the four repaired races and of the seeded `if ok` retry (witness-M9). The spec checker "
+        "evaluates on the implementation's observations: coherence, getSize = live sum after every event, managed, bound, and "
+        "one load per key and epoch (no goroutine enters its loader while another load of the same key from the same epoch is "
+        "running or has succeeded; an epoch ends with an effective cleaning pass or a Release). non-trivial = at least one lookup and one maintenance call with an "
         "effect (rotation, cleaning pass, generations or buckets removed); distinct by event list")
 
 
